@@ -74,7 +74,11 @@ func main() {
 			if !strings.Contains(key, "::") {
 				key = modPath + "/rules::" + key
 			}
-			vc, err = w.VerifyFunc(key)
+			if os.Getenv("VERIF_REFINE") != "" {
+				vc, err = w.VerifyRefinement(key)
+			} else {
+				vc, err = w.VerifyFunc(key)
+			}
 		} else {
 			for _, lm := range w.cons.Lemmas {
 				if lm.Label == pos[0] {
